@@ -3,6 +3,7 @@ package pgsql
 import (
 	"bytes"
 	"encoding/json"
+	"maps"
 	"strconv"
 	"strings"
 
@@ -36,7 +37,14 @@ func StringSliceToTextArray(values []string) (pgtype.TextArray, error) {
 }
 
 func MapStringAnyToJSONB(values map[string]any) (pgtype.JSONB, error) {
-	var jsonb pgtype.JSONB
+	var (
+		jsonb pgtype.JSONB
+
+		// The map belongs to the caller (a query parameter, an entity's properties): as soon as anything has to be
+		// rewritten, encode from a copy instead of rewriting the caller's map in place.
+		encoded = values
+		copied  = false
+	)
 
 	for key, value := range values {
 		reflectValue := reflect.ValueOf(value)
@@ -45,12 +53,17 @@ func MapStringAnyToJSONB(values map[string]any) (pgtype.JSONB, error) {
 			if reflectValue.IsNil() {
 				// Nil slices are not encoded by the sql driver to an empty array but rather as a JSON `null`. To avoid this, replace any
 				// nil slice reference with a new 0 capacity allocation.
-				values[key] = reflect.MakeSlice(reflectValue.Type(), 0, 0).Interface()
+				if !copied {
+					encoded = maps.Clone(values)
+					copied = true
+				}
+
+				encoded[key] = reflect.MakeSlice(reflectValue.Type(), 0, 0).Interface()
 			}
 		}
 	}
 
-	return jsonb, jsonb.Set(values)
+	return jsonb, jsonb.Set(encoded)
 }
 
 func PropertiesToJSONB(properties *graph.Properties) (pgtype.JSONB, error) {
